@@ -84,7 +84,7 @@ type RunSpec struct {
 	// Before: runs executed first in the SAME scratch world (working directory, TMPDIR, HOME, XDG
 	// directories — the durable state a process can leave behind); their outcome is ignored. Every run
 	// without Before starts in a fresh world.
-	Before []RunSpec `json:"before,omitempty"`
+	Before  []RunSpec     `json:"before,omitempty"`
 	Program *spec.Program `json:"program,omitempty"` // nil: same as the case's program
 	Config  *ConfigFile   `json:"config_file,omitempty"`
 	Params  []string      `json:"params"`
@@ -215,6 +215,12 @@ func (e *Engine) Exec(prog *spec.Program, rs *RunSpec) Outcome {
 				real = cfgParam
 			case "hidden":
 				cfgParam = ".config.yml"
+				real = cfgParam
+			case "json-ext":
+				cfgParam = "config.json" // the content is what it is; the name of the file means nothing
+				real = cfgParam
+			case "upper-ext":
+				cfgParam = "CONFIG.YAML"
 				real = cfgParam
 			case "readonly":
 				mode = 0o400
